@@ -430,9 +430,13 @@ Definition undo_string (fuel : nat) (s : state) (x : str) : res (str * list xtre
 Definition undo_tree_fuel (fuel : nat) (s : state) (T : xtree) : res xtree :=
   bind (undo_element fuel s false T) (fun r => Ok (fst r)).
 
-(* A fuel that is always sufficient when the table is acyclic (proved for the
-   states in the scope of C11_roundtrip): the recursion depth is bounded by
-   nesting depth of the tree, plus, for every table entry, its own. *)
+(* The fuel undo_tree runs with.  One unit is used per level of nesting of the
+   restored document (C11_roundtrip: any fuel above the nesting depth of the
+   original document gives the answer, and the answer does not depend on fuel),
+   so UNDO_DEPTH is the model's counterpart of Python's recursion limit (1000
+   frames, about three per level); the size-dependent part keeps documents
+   that are deep but acyclic working. *)
+Definition UNDO_DEPTH : nat := 400.
 Fixpoint xsize (t : xtree) : nat :=
   match t with
   | XNode _ _ _ _ kids => S ((fix go (l : list xtree) : nat := match l with [] => O | k :: r => (xsize k + go r)%nat end) kids)
@@ -443,9 +447,14 @@ Fixpoint tsize (t : xtree) : nat :=   (* nodes + characters *)
     S (length (otxt x) + length l +
        (fix go (l : list xtree) : nat := match l with [] => O | k :: r => (tsize k + go r)%nat end) kids)%nat
   end.
+Fixpoint xheight (t : xtree) : nat :=   (* nesting depth *)
+  match t with
+  | XNode _ _ _ _ kids =>
+    S ((fix go (l : list xtree) : nat := match l with [] => O | k :: r => Nat.max (xheight k) (go r) end) kids)
+  end.
 Definition table_size (s : state) : nat :=
   fold_right (fun pe acc => tsize (fst (fst (snd pe))) + acc)%nat O (p2t s).
-Definition default_fuel (s : state) (T : xtree) : nat := (2 + 2 * tsize T + 2 * table_size s)%nat.
+Definition default_fuel (s : state) (T : xtree) : nat := (UNDO_DEPTH + 2 * tsize T + 2 * table_size s)%nat.
 
 Definition undo_tree (s : state) (T : xtree) : res xtree := undo_tree_fuel (default_fuel s T) s T.
 
